@@ -475,6 +475,16 @@ func (vm *VM) appendSlice(first int8, length int, slice reflect.Value) reflect.V
 			for i, j := 0, ol; i < length; i, j = i+1, j+1 {
 				slice.Index(j).Set(regs[i].Interface().(*callable).Value(vm.env))
 			}
+		case reflect.Interface:
+			regs := vm.regs.general[vm.fp[3]+Addr(first):]
+			for i, j := 0, ol; i < length; i, j = i+1, j+1 {
+				// An invalid reflect.Value represents a nil interface value.
+				if regs[i].IsValid() {
+					slice.Index(j).Set(regs[i])
+				} else {
+					slice.Index(j).SetZero()
+				}
+			}
 		default:
 			regs := vm.regs.general[vm.fp[3]+Addr(first):]
 			for i, j := 0, ol; i < length; i, j = i+1, j+1 {
